@@ -125,7 +125,10 @@ def make_case(rng, allow_method_change=False, faults_ok=False, geoms=GEOMS, np_c
             s = dict(rng.choice(pool))
             if method_change and rng.random() < 0.5:
                 s.update(rng.choice(METHOD_SETTINGS))
-            ops.append({"op": "regrid", "s": s})
+            op = {"op": "regrid", "s": s}
+            if rng.random() < 0.25:
+                op["partial"] = True
+            ops.append(op)
             visited.append(s)
         elif k == "return":
             s = dict(rng.choice(visited))
@@ -345,7 +348,11 @@ def run_case(case, refdir=None, keep_log=False):
                         if k == len(case["ops"]) - 1:
                             pending_failure = True
                     continue
-                settings = dict(base, **op["s"])
+                if op.get("partial"):
+                    # a script passes only the nonorthogonal settings it cares about
+                    settings = dict(op["s"])
+                else:
+                    settings = dict(base, **op["s"])
                 settings.update(op.get("junk", {}))
                 before = endpoints(mesh)
                 if op["s"] in seen[:-1]:
